@@ -92,11 +92,29 @@ func c07FullPaths(fn *ssa.Function, ip *IterPath) ([]*IterPath, bool) {
 }
 
 // c07RemainderTerm: is v (as computed on the path fp) the product
-// float64(cursor + 1) * DisjointCoeff for a cursor of list 1 or list 2?
+// float64(number of genes list k still holds) * DisjointCoeff, the number being index+1 for the index the cursor of
+// list k stands for: `cursor + 1` for an index cursor, the cursor itself for a cursor that counts the genes left,
+// in general cursor + m with m = off(cursor) + 1 (c07Cur.Off)?
 // Returns 1 or 2 for the list whose cursor it counts from, 0 when v has another shape.
-func c07RemainderTerm(fp *IterPath, v ssa.Value, fam1, fam2 map[ssa.Value]bool, isDisjoint func(ssa.Value) bool) int {
+func c07RemainderTerm(tm *Termer, fp *IterPath, v ssa.Value, fam1, fam2 map[ssa.Value]bool, isDisjoint func(ssa.Value) bool) int {
 	mul, ok := fp.ResolveAt(v).(*ssa.BinOp)
 	if !ok || mul.Op != token.MUL {
+		return 0
+	}
+	// left(cur, m): cur + m is the number of genes left in list 1 / 2
+	left := func(cur ssa.Value, m int64) int {
+		k, listTerm := 0, ""
+		switch {
+		case fam1[cur] && !fam2[cur]:
+			k, listTerm = 1, "recv.Genes"
+		case fam2[cur] && !fam1[cur]:
+			k, listTerm = 2, "p1.Genes"
+		default:
+			return 0
+		}
+		if off, okOff := tm.c07CurOf(listTerm).Off(cur); okOff && m == off+1 {
+			return k
+		}
 		return 0
 	}
 	for _, pr := range [][2]ssa.Value{{mul.X, mul.Y}, {mul.Y, mul.X}} {
@@ -107,20 +125,27 @@ func c07RemainderTerm(fp *IterPath, v ssa.Value, fam1, fam2 map[ssa.Value]bool, 
 		if !ok {
 			continue
 		}
-		add, ok := fp.ResolveAt(cv.X).(*ssa.BinOp)
-		if !ok || add.Op != token.ADD {
+		n := fp.ResolveAt(cv.X)
+		if k := left(n, 0); k != 0 {
+			return k
+		}
+		add, ok := n.(*ssa.BinOp)
+		if !ok || (add.Op != token.ADD && add.Op != token.SUB) {
 			continue
 		}
 		for _, qr := range [][2]ssa.Value{{add.X, add.Y}, {add.Y, add.X}} {
-			if k, isK := c07Int(qr[1]); !isK || k != 1 {
+			m, isK := c07Int(qr[1])
+			if !isK {
 				continue
 			}
-			cur := fp.ResolveAt(qr[0])
-			switch {
-			case fam1[cur] && !fam2[cur]:
-				return 1
-			case fam2[cur] && !fam1[cur]:
-				return 2
+			if add.Op == token.SUB {
+				if qr[1] != add.Y {
+					continue
+				}
+				m = -m
+			}
+			if k := left(fp.ResolveAt(qr[0]), m); k != 0 {
+				return k
 			}
 		}
 	}
@@ -172,7 +197,7 @@ func c07RemainderOnAllPaths(fn *ssa.Function, tm *Termer, ip *IterPath, costAcc 
 		}
 		n, right := 0, 0
 		for _, a := range adds {
-			switch c07RemainderTerm(fp, a, fam1, fam2, isDisjoint) {
+			switch c07RemainderTerm(tm, fp, a, fam1, fam2, isDisjoint) {
 			case 1:
 				n++
 				if ex2 {
@@ -1435,7 +1460,7 @@ func (r *Run) c07CheckResult(w *c07Walk, tm *Termer, paths []*IterPath) {
 				if inLoop && (w.IsDc(v) || w.IsEc(v)) {
 					continue // the unit of the last, partial iteration
 				}
-				if len(w.Tails) == 0 && c07RemainderTerm(fp, v, w.Fam1, w.Fam2, w.IsDc) != 0 {
+				if len(w.Tails) == 0 && c07RemainderTerm(tm, fp, v, w.Fam1, w.Fam2, w.IsDc) != 0 {
 					continue // counted by the exit obligation
 				}
 			}
@@ -1584,6 +1609,8 @@ func (r *Run) c07CheckStart(w *c07Walk, tm *Termer, paths []*IterPath) {
 		}
 	}
 	lenOf := map[*ssa.Phi]string{w.C1: "len(recv.Genes)", w.C2: "len(p1.Genes)"}
+	// index = cursor + bias (0 for an index cursor, -1 for a cursor that counts the genes left)
+	biasOf := map[*ssa.Phi]int64{w.C1: tm.c07BiasOf("recv.Genes"), w.C2: tm.c07BiasOf("p1.Genes")}
 	msg := ""
 	for i, pred := range w.Main.Header.Preds {
 		if w.Main.Blocks[pred] {
@@ -1601,17 +1628,14 @@ func (r *Run) c07CheckStart(w *c07Walk, tm *Termer, paths []*IterPath) {
 			e := a07Strip(c.Edges[i])
 			switch {
 			case dir[c] > 0:
-				if z, isK := constInt(e); !isK || z != 0 {
-					msg = "a cursor of the forward walk (" + c.Comment + ") does not start at the first gene (0)"
+				if z, isK := c07Int(e); !isK || z+biasOf[c] != 0 {
+					msg = "a cursor of the forward walk (" + c.Comment + ") does not start at the first gene (index 0)"
 				}
 			case dir[c] < 0:
-				sb, isSub := e.(*ssa.BinOp)
-				one := int64(0)
-				if isSub {
-					one, _ = constInt(sb.Y)
-				}
-				if !isSub || sb.Op != token.SUB || one != 1 || tm.Of(sb.X).String() != lenOf[c] {
-					msg = "a cursor of the backward walk (" + c.Comment + ") does not start at the last gene (len-1)"
+				// the index the start value stands for is len-1: start = len + k with k + bias == -1
+				base, k := c07Lin(nil, e)
+				if tm.Of(base).String() != lenOf[c] || k+biasOf[c] != -1 {
+					msg = "a cursor of the backward walk (" + c.Comment + ") does not start at the last gene (index len-1)"
 				}
 			default:
 				msg = "cannot determine the direction of a cursor"
@@ -1808,7 +1832,8 @@ func (r *Run) c07CheckGenes(w *c07Walk, tm *Termer, paths []*IterPath) {
 			feasible = append(feasible, ip)
 		}
 	}
-	sameIndex := func(a, b ssa.Value) bool {
+	biasK := map[int]int64{1: tm.c07BiasOf(listTerm[1]), 2: tm.c07BiasOf(listTerm[2])}
+	sameBase := func(a, b ssa.Value) bool {
 		a, b = a07Strip(a), a07Strip(b)
 		if a == b {
 			return true
@@ -1820,6 +1845,16 @@ func (r *Run) c07CheckGenes(w *c07Walk, tm *Termer, paths []*IterPath) {
 		// the same pure expression over the list lengths written twice (len(g.Genes)-1)
 		sa, sb := CanonTerm(tm.Of(a)), CanonTerm(tm.Of(b))
 		return sa == sb && !strings.Contains(sa, "φ") && !strings.Contains(sa, "[*]") && !strings.Contains(sa, "loop") && strings.Contains(sa, "len(")
+	}
+	// entryIndexIs: in front of the loop, idx == at + bias (idx the index read, at the cursor's start value)
+	entryIndexIs := func(idx, at ssa.Value, bias int64) bool {
+		b1, k1 := c07Lin(nil, idx)
+		b2, k2 := c07Lin(nil, at)
+		if c1, isC1 := c07Int(b1); isC1 {
+			c2, isC2 := c07Int(b2)
+			return isC2 && c1+k1 == c2+k2+bias
+		}
+		return k1 == k2+bias && sameBase(b1, b2)
 	}
 	// G == list_k[c_k] at the loop head?  (0: no)
 	carried := map[*ssa.Phi]int{}
@@ -1834,7 +1869,7 @@ func (r *Run) c07CheckGenes(w *c07Walk, tm *Termer, paths []*IterPath) {
 				continue
 			}
 			kk, ia := c07GeneLoad(tm, a07Strip(G.Edges[i]))
-			if kk == 0 || (k != 0 && kk != k) || !sameIndex(ia.Index, cur[kk].Edges[i]) {
+			if kk == 0 || (k != 0 && kk != k) || !entryIndexIs(ia.Index, cur[kk].Edges[i], biasK[kk]) {
 				return 0
 			}
 			k = kk
@@ -1847,7 +1882,7 @@ func (r *Run) c07CheckGenes(w *c07Walk, tm *Termer, paths []*IterPath) {
 				continue
 			}
 			kk, ia := c07GeneLoad(tm, ip.NextValue(G))
-			if kk != k || !w.Main.Blocks[ia.Block()] || !ip.OnPath(ia) || ip.ResolveAt(ia.Index) != ip.NextValue(cur[k]) {
+			if kk != k || !w.Main.Blocks[ia.Block()] || !ip.OnPath(ia) || !c07IndexIs(ip, ia.Index, ip.NextValue(cur[k]), biasK[k]) {
 				return 0
 			}
 		}
@@ -1866,7 +1901,7 @@ func (r *Run) c07CheckGenes(w *c07Walk, tm *Termer, paths []*IterPath) {
 			}
 			nEntry++
 			e := a07Strip(cur[k].Edges[i])
-			facts := append(append([]Guard{}, Guards(pred)...), condsAt(pred, w.Main.Header)...)
+			facts := c07FlagFacts(append(append([]Guard{}, Guards(pred)...), condsAt(pred, w.Main.Header)...), 0)
 			in := false
 			for _, g := range facts {
 				if c07InRangeFact(tm, g, func(v ssa.Value) bool { return v == e }, listTerm[k]) {
@@ -1882,13 +1917,11 @@ func (r *Run) c07CheckGenes(w *c07Walk, tm *Termer, paths []*IterPath) {
 				if !nonEmpty {
 					continue
 				}
-				if z, isZ := c07Int(e); isZ && z == 0 {
+				if z, isZ := c07Int(e); isZ && z+biasK[k] == 0 {
 					in = true
 				}
-				if sb, isSub := e.(*ssa.BinOp); isSub && sb.Op == token.SUB && tm.Of(sb.X).String() == lenT {
-					if one, isOne := c07Int(sb.Y); isOne && one == 1 {
-						in = true
-					}
+				if base, off := c07Lin(nil, e); tm.Of(base).String() == lenT && off+biasK[k] == -1 {
+					in = true
 				}
 			}
 			if !in {
@@ -1929,7 +1962,7 @@ func (r *Run) c07CheckGenes(w *c07Walk, tm *Termer, paths []*IterPath) {
 					fail(fmt.Sprintf("an iteration reads %s of a gene of list %d that was loaded in front of the loop and is not reloaded: every iteration looks at the same gene, not at the one under the cursor", fieldOf(fa.X.Type(), fa.Field).Name(), k))
 					return
 				}
-				if ip.ResolveAt(ia.Index) != ssa.Value(cur[k]) {
+				if !c07IndexIs(ip, ia.Index, cur[k], biasK[k]) {
 					fail(fmt.Sprintf("an iteration reads %s of list %d at index %s, which is not the position of that list's cursor at the start of the iteration: the gene compared is not the gene that is then matched, counted or stepped over", fieldOf(fa.X.Type(), fa.Field).Name(), k, tm.Of(ia.Index).String()))
 					return
 				}
@@ -2274,4 +2307,273 @@ func c07Invocations(fn *ssa.Function, targets map[*ssa.Function]bool) []c07Invoc
 		resolve(c.Common().Value, Guards(b), 0)
 	})
 	return out
+}
+
+// ---------------------------------------------------------------------------
+// Cursor representation: index cursor or count cursor
+
+// c07Cur says how the loop-carried cursor VARIABLE of one gene list relates to the INDEX at which the list is read.
+// The pinned walks carry the index itself (`list1Idx`, read `Genes[list1Idx]`, exhausted when `list1Idx < 0`, genes
+// left `list1Idx+1`). The same walk can carry the number of genes left (`left`, read `Genes[left-1]`, exhausted when
+// `left == 0`, genes left `left`): the variable is the index plus one. Every cursor fact of the rules is a fact about
+// the index; Bias is the constant with  index = variable + Bias,  read off the code: every read `list[i]` must use
+// an i that is a version of the variable (bias 0) or a version plus a constant, and all reads must agree.
+//
+// Versions are the values the variable takes over time: the header phi of the merge loop, everything merged into it
+// (start value, stepped values) and every phi it is merged into (the cursor of a tail loop). A family member that is
+// not a version is an expression over one (`left-1`); Off gives, for any of them, the constant with
+// index-at-that-time = value + Off.
+type c07Cur struct {
+	Versions map[ssa.Value]bool
+	Bias     int64
+	Why      string // non-empty: the reads of the list do not agree on one representation
+}
+
+// c07PeelConst: v = x + k for a constant step written in v itself (one level; single-edge phis are looked through).
+func c07PeelConst(v ssa.Value) (ssa.Value, int64, bool) {
+	v = a07Strip(v)
+	b, ok := v.(*ssa.BinOp)
+	if !ok {
+		return nil, 0, false
+	}
+	if bt, isBasic := b.Type().Underlying().(*types.Basic); !isBasic || bt.Info()&types.IsInteger == 0 {
+		return nil, 0, false
+	}
+	switch b.Op {
+	case token.ADD:
+		if k, isK := c07Int(b.Y); isK {
+			return b.X, k, true
+		}
+		if k, isK := c07Int(b.X); isK {
+			return b.Y, k, true
+		}
+	case token.SUB:
+		if k, isK := c07Int(b.Y); isK {
+			return b.X, -k, true
+		}
+	}
+	return nil, 0, false
+}
+
+func c07CursorInfo(fn *ssa.Function, tm *Termer, listTerm string, head *ssa.Phi) *c07Cur {
+	c := &c07Cur{Versions: map[ssa.Value]bool{}}
+	work := []ssa.Value{head}
+	for len(work) > 0 {
+		v := work[len(work)-1]
+		work = work[:len(work)-1]
+		if c.Versions[v] {
+			continue
+		}
+		if _, isC := v.(*ssa.Const); isC {
+			continue
+		}
+		c.Versions[v] = true
+		if ph, ok := v.(*ssa.Phi); ok {
+			work = append(work, ph.Edges...)
+		}
+		if refs := v.Referrers(); refs != nil {
+			for _, ref := range *refs {
+				if ph, ok := ref.(*ssa.Phi); ok {
+					work = append(work, ph)
+				}
+			}
+		}
+	}
+	have := false
+	legacy := false
+	Instrs(fn, func(_ *ssa.BasicBlock, _ int, in ssa.Instruction) {
+		ia, ok := in.(*ssa.IndexAddr)
+		if !ok || tm.Of(ia.X).String() != listTerm {
+			return
+		}
+		if _, isC := c07Int(ia.Index); isC {
+			return
+		}
+		v, k := ssa.Value(ia.Index), int64(0)
+		found := false
+		for i := 0; i < 8; i++ {
+			v = a07Strip(v)
+			if c.Versions[v] {
+				found = true
+				break
+			}
+			x, d, okP := c07PeelConst(v)
+			if !okP {
+				break
+			}
+			v, k = x, k+d
+		}
+		if !found {
+			legacy = true // an index of another make (picked by a helper, ...): the rules judge it as before
+			return
+		}
+		if have && k != c.Bias {
+			c.Why = fmt.Sprintf("%s is read at its cursor%+d in one place and at its cursor%+d in another", listTerm, c.Bias, k)
+			return
+		}
+		have, c.Bias = true, k
+	})
+	if c.Why == "" && (legacy || !have) && c.Bias != 0 {
+		c.Why = listTerm + " is read at an offset from its cursor in one place and at an index of unknown relation to the cursor in another"
+	}
+	if legacy && c.Bias == 0 && c.Why == "" {
+		return nil // as before: the cursor is the index, every family member speaks about it
+	}
+	return c
+}
+
+// Off: index (at the time v was computed) = v + Off(v), for a version of the cursor variable or an expression
+// version±const. ok=false: v is neither (no fact about v is a fact about the index).
+func (c *c07Cur) Off(v ssa.Value) (int64, bool) {
+	if c == nil {
+		return 0, true
+	}
+	k := int64(0)
+	for i := 0; i < 8; i++ {
+		v = a07Strip(v)
+		if c.Versions[v] {
+			return c.Bias - k, true
+		}
+		x, d, ok := c07PeelConst(v)
+		if !ok {
+			return 0, false
+		}
+		v, k = x, k+d
+	}
+	return 0, false
+}
+
+func (tm *Termer) c07CurOf(listTerm string) *c07Cur {
+	if tm == nil || tm.c07cur == nil {
+		return nil
+	}
+	return tm.c07cur[listTerm]
+}
+
+// c07BiasOf: index = cursor variable + bias for the list (0 when nothing else is known).
+func (tm *Termer) c07BiasOf(listTerm string) int64 {
+	if c := tm.c07CurOf(listTerm); c != nil {
+		return c.Bias
+	}
+	return 0
+}
+
+// c07FactAboutX is c07FactAbout that also says which operand was the one picked.
+func c07FactAboutX(cond ssa.Value, outcome bool, is func(ssa.Value) bool) (self, other ssa.Value, set int, ok bool) {
+	x, y, set, ok := c07Fact(cond, outcome)
+	if !ok {
+		return nil, nil, 0, false
+	}
+	switch {
+	case is(x):
+		return x, y, set, true
+	case is(y):
+		return y, x, c07Mirror(set), true
+	}
+	return nil, nil, 0, false
+}
+
+// c07Lin: v = base + k with every constant step peeled off; on a path, phis are resolved to the operand chosen there.
+func c07Lin(fp *IterPath, v ssa.Value) (ssa.Value, int64) {
+	k := int64(0)
+	for i := 0; i < 12; i++ {
+		if fp != nil {
+			v = fp.ResolveAt(v)
+		}
+		v = a07Strip(v)
+		x, d, ok := c07PeelConst(v)
+		if !ok {
+			break
+		}
+		v, k = x, k+d
+	}
+	return v, k
+}
+
+// c07IndexIs: on the path, idx == at + bias (the index read is the position the cursor value `at` stands for).
+func c07IndexIs(fp *IterPath, idx, at ssa.Value, bias int64) bool {
+	if idx == nil || at == nil {
+		return false
+	}
+	b1, k1 := c07Lin(fp, idx)
+	b2, k2 := c07Lin(fp, at)
+	return b1 == b2 && k1 == k2+bias
+}
+
+// c07FlagFacts extends branch outcomes through boolean flags of EITHER value: when `flag` is a phi web of constants
+// only and an outcome says the flag is b, control took one of the edges on which a phi of the web receives b; what is
+// known on all of those edges is known here too (`if v, trivial := emptyCase(n1, n2); trivial { return v }`: behind the
+// refused test, trivial is false, which the helper returns only after both `n == 0` tests were refused). Only
+// outcomes of conditions computed strictly before every phi of the web are carried over (the condition cannot have
+// been recomputed between the edge and the test of the flag; see effGuards), or of conditions that lie on no cycle
+// (computed at most once per call: there is no other instance to confuse it with).
+func c07FlagFacts(gs []Guard, depth int) []Guard {
+	out := append([]Guard{}, gs...)
+	if depth > 3 {
+		return out
+	}
+	for _, g := range gs {
+		f, w, ok := boolFlagOf(g.Cond)
+		if !ok {
+			continue
+		}
+		val := g.True == w
+		web := phiWeb(f)
+		if len(web.Feeders) > 0 {
+			continue // the flag can also hold a computed value: nothing follows
+		}
+		sites := flagSites(f, val)
+		if len(sites) == 0 {
+			continue
+		}
+		var common []Guard
+		for i, st := range sites {
+			cs := c07FlagFacts(condsAt(st.From, st.To), depth+1)
+			if i == 0 {
+				common = cs
+			} else {
+				common = intersectGuards(common, cs)
+			}
+		}
+		for _, c := range common {
+			if !defStrictlyDominatesWeb(c.Cond, web) && !c07RunsOnce(c.Cond) {
+				continue
+			}
+			dup := false
+			for _, o := range out {
+				if sameGuard(o, c) {
+					dup = true
+				}
+			}
+			if !dup {
+				out = append(out, c)
+			}
+		}
+	}
+	return out
+}
+
+// c07RunsOnce: the instruction defining v lies on no cycle of its function (it executes at most once per call).
+func c07RunsOnce(v ssa.Value) bool {
+	in, ok := v.(ssa.Instruction)
+	if !ok || in.Block() == nil {
+		return true
+	}
+	b := in.Block()
+	// b lies on a cycle iff b is reachable from one of its successors
+	seen := map[*ssa.BasicBlock]bool{}
+	stack := append([]*ssa.BasicBlock{}, b.Succs...)
+	for len(stack) > 0 {
+		x := stack[len(stack)-1]
+		stack = stack[:len(stack)-1]
+		if x == b {
+			return false
+		}
+		if seen[x] {
+			continue
+		}
+		seen[x] = true
+		stack = append(stack, x.Succs...)
+	}
+	return true
 }
